@@ -2,6 +2,7 @@ package main
 
 import (
 	"go/token"
+	"go/types"
 
 	"golang.org/x/tools/go/ssa"
 )
@@ -158,4 +159,159 @@ func byteDomains(fn *ssa.Function, isSubject func(ssa.Value) bool) (map[*ssa.Bas
 		}
 	}
 	return in, edge
+}
+
+// readerEscapes: the table of single-character backslash escapes that ParseStringLiteralToken
+// implements, read from its SSA: for every append of one constant byte to a byte slice, the values
+// the escape selector (the byte at index 1 of the escape) can have there; and for a table-driven
+// decoder, the constant entries of the map that is indexed by the selector and whose result is
+// appended. unicode: the selectors for which a strconv.Parse* call is reached.
+func readerEscapes(p *Program, fn *ssa.Function) (table map[byte]byte, unicode map[byte]bool, conflict string) {
+	table, unicode = map[byte]byte{}, map[byte]bool{}
+	isSubject := func(v ssa.Value) bool {
+		u, ok := v.(*ssa.UnOp)
+		if !ok || u.Op != token.MUL {
+			return false
+		}
+		ia, ok := u.X.(*ssa.IndexAddr)
+		if !ok {
+			return false
+		}
+		k, isC := constInt(ia.Index)
+		return isC && k == 1
+	}
+	in, _ := byteDomains(fn, isSubject)
+	put := func(sel, ch byte) {
+		if old, ok := table[sel]; ok && old != ch {
+			conflict = "selector decodes to two different characters"
+		}
+		table[sel] = ch
+	}
+	singleConstByte := func(v ssa.Value) (byte, bool) {
+		sl, ok := v.(*ssa.Slice)
+		if !ok {
+			return 0, false
+		}
+		al, ok := sl.X.(*ssa.Alloc)
+		if !ok {
+			return 0, false
+		}
+		at, ok := al.Type().(*types.Pointer).Elem().Underlying().(*types.Array)
+		if !ok || at.Len() != 1 {
+			return 0, false
+		}
+		for _, r := range *al.Referrers() {
+			if ia, ok := r.(*ssa.IndexAddr); ok {
+				for _, r2 := range *ia.Referrers() {
+					if st, ok := r2.(*ssa.Store); ok {
+						if k, isC := constInt(st.Val); isC && k >= 0 && k < 256 {
+							return byte(k), true
+						}
+					}
+				}
+			}
+		}
+		return 0, false
+	}
+	mapEntries := func(m ssa.Value) map[byte]byte {
+		out := map[byte]byte{}
+		var mm *ssa.MakeMap
+		switch x := m.(type) {
+		case *ssa.MakeMap:
+			mm = x
+		case *ssa.UnOp:
+			if g, ok := x.X.(*ssa.Global); ok && x.Op == token.MUL && g.Pkg != nil {
+				if init := g.Pkg.Func("init"); init != nil {
+					for _, b := range init.Blocks {
+						for _, ins := range b.Instrs {
+							if st, ok := ins.(*ssa.Store); ok && st.Addr == ssa.Value(g) {
+								if m2, ok := st.Val.(*ssa.MakeMap); ok {
+									mm = m2
+								}
+							}
+						}
+					}
+				}
+			}
+		}
+		if mm == nil {
+			return nil
+		}
+		for _, r := range *mm.Referrers() {
+			if mu, ok := r.(*ssa.MapUpdate); ok {
+				k, ok1 := constInt(mu.Key)
+				v, ok2 := constInt(mu.Value)
+				if ok1 && ok2 && k >= 0 && k < 256 && v >= 0 && v < 256 {
+					out[byte(k)] = byte(v)
+				}
+			}
+		}
+		return out
+	}
+	for _, b := range fn.Blocks {
+		for _, ins := range b.Instrs {
+			call, ok := ins.(*ssa.Call)
+			if !ok {
+				continue
+			}
+			if cal := call.Call.StaticCallee(); cal != nil && cal.Pkg != nil && cal.Pkg.Pkg.Path() == "strconv" {
+				if d := in[b]; !d.neg {
+					for _, v := range d.values() {
+						unicode[v] = true
+					}
+				}
+				continue
+			}
+			bi, ok := call.Call.Value.(*ssa.Builtin)
+			if !ok || bi.Name() != "append" || len(call.Call.Args) != 2 {
+				continue
+			}
+			if sl, ok := call.Type().Underlying().(*types.Slice); !ok || !isByte(sl.Elem()) {
+				continue
+			}
+			d := in[b]
+			if ch, ok := singleConstByte(call.Call.Args[1]); ok {
+				if !d.neg {
+					for _, sel := range d.values() {
+						put(sel, ch)
+					}
+				}
+				continue
+			}
+			// appended value is table[selector]
+			if sl, ok := call.Call.Args[1].(*ssa.Slice); ok {
+				if al, ok := sl.X.(*ssa.Alloc); ok {
+					for _, r := range *al.Referrers() {
+						ia, ok := r.(*ssa.IndexAddr)
+						if !ok {
+							continue
+						}
+						for _, r2 := range *ia.Referrers() {
+							st, ok := r2.(*ssa.Store)
+							if !ok {
+								continue
+							}
+							v := st.Val
+							if ex, ok := v.(*ssa.Extract); ok && ex.Index == 0 {
+								v = ex.Tuple
+							}
+							if lk, ok := v.(*ssa.Lookup); ok && isSubject(lk.Index) {
+								for sel, ch := range mapEntries(lk.X) {
+									if d.has(sel) {
+										put(sel, ch)
+									}
+								}
+							}
+						}
+					}
+				}
+			}
+		}
+	}
+	return table, unicode, conflict
+}
+
+func isByte(t types.Type) bool {
+	bt, ok := t.Underlying().(*types.Basic)
+	return ok && bt.Kind() == types.Uint8
 }
